@@ -409,7 +409,12 @@ pub fn parse(words: &[&str]) -> Case {
 type Log = Arc<Mutex<Vec<String>>>;
 
 fn mt(t: i64) -> MonotonicTime {
-    MonotonicTime::EPOCH + Duration::from_nanos(t as u64)
+    if t >= 0 {
+        MonotonicTime::EPOCH + Duration::from_nanos(t as u64)
+    } else {
+        // times before the epoch are legal
+        MonotonicTime::EPOCH - Duration::from_nanos(t.unsigned_abs())
+    }
 }
 fn ns(t: MonotonicTime) -> i128 {
     if t >= MonotonicTime::EPOCH {
